@@ -179,7 +179,7 @@ fn compare_final(u: &Final, i: &Final) -> Option<(String, String)> {
 }
 
 fn make_setup(rng: &mut Rng, small: bool, kbd_isr: bool) -> Setup {
-    let opts = ProgOpts { io: true, input: false, faults: false, calls: true, max_blocks: if small { 2 } else { 6 }, unbalanced: false };
+    let opts = ProgOpts { io: true, input: false, faults: false, calls: true, max_blocks: if small { 2 } else { 6 }, unbalanced: false, ..ProgOpts::default() };
     let prog = gen_user_prog(rng, &opts);
     let mut isrs = BTreeMap::new();
     let nv = 1 + rng.usize(3);
